@@ -69,7 +69,7 @@ def parse_case(lines):
             res["merge"][(h, int(tok[1]))] = tok[2]
         elif h == "S" and len(tok) >= 3 and (tok[1] == "orig" or re.match(r"mm?\d+$", tok[1])):
             res["search"][(tok[1], int(tok[2]))] = tok[3:]
-        elif h in ("N", "IDS", "T", "J", "K", "C", "L", "ALL") and cur is not None:
+        elif h in ("N", "X", "IDS", "T", "J", "K", "C", "L", "ALL") and cur is not None:
             cur.append(ln)
         else:
             res["other"].append(ln)
@@ -82,7 +82,7 @@ def reader_streams(lines, model=False):
     per, head = {}, []
     for ln in lines:
         tok = ln.split()
-        if tok[0] in ("N", "IDS", "ALL"):
+        if tok[0] in ("N", "X", "IDS", "ALL"):
             head.append(ln)
         else:
             per.setdefault(int(tok[1]), []).append(ln)
@@ -125,7 +125,13 @@ def vis_diff(a, b):
 
 def header_ok(per, head):
     ids = sorted(per)
-    want = ["N %d %d %d %d" % (len(ids), len(ids), ids[0], ids[-1]), "IDS" + "".join(" %d" % i for i in ids)] if ids else None
+    if not ids:
+        return False
+    firsts = [int(per[i][0].split()[7]) for i in ids]
+    lasts = [int(per[i][0].split()[8]) for i in ids]
+    want = ["N %d %d %d %d" % (len(ids), len(ids), ids[0], ids[-1]),
+            "X %d %d %d %d" % (min(firsts), max(firsts), min(lasts), max(lasts)),
+            "IDS" + "".join(" %d" % i for i in ids)]
     return head == want
 
 
@@ -292,7 +298,73 @@ def gen_case(rng, name, regime):
     some = rng.choice(files)[0]
     qs += ["id:%d sort:id" % some["id"], "cport:%d sort:id" % some["cp"], "chost:%s sort:id" % c01.go_ip(some["ca"]),
            "shost:%s sort:-id" % c01.go_ip(some["sa"])]
+    qs += time_queries(rng, files)
     return {"name": name, "regime": regime, "files": files, "queries": qs}
+
+
+def stream_times(s):
+    return s["pk"][0][0] * 10 ** 9 + s["pk"][0][1], s["pk"][-1][0] * 10 ** 9 + s["pk"][-1][1]
+
+
+def time_queries(rng, files, limit=14):
+    """ftime / ltime / time bounds placed relative to the data: at the first/last packet time of generated streams, +-1 us,
+    and between the extreme last (first) packet times of different files - the values the search compares with the per-file
+    min/max summaries to skip whole files. @T<ns>@ is formatted by the harness in the process' local time zone."""
+    pts = set()
+    ext = []
+    for f in files:
+        ts = [stream_times(s) for s in f]
+        ext.append((min(a for a, _ in ts), max(a for a, _ in ts), min(b for _, b in ts), max(b for _, b in ts)))
+        for a, b in rng.sample(ts, min(2, len(ts))):
+            pts |= {a, b, a + 1000, b + 1000, max(1, a - 1000), max(1, b - 1000)}
+    for i in range(len(ext)):
+        for j in range(i + 1, len(ext)):
+            for k in range(4):
+                lo, hi = sorted((ext[i][k], ext[j][k]))
+                pts.add((lo + hi) // 2)
+    allext = [x for e in ext for x in e]
+    pts |= {max(1, min(allext) - 10 ** 9), max(allext) + 10 ** 9}
+    pts = sorted(p for p in pts if p >= 10 ** 9)       # the date syntax needs a positive year
+    qs = []
+    for t in rng.sample(pts, min(limit, len(pts))):
+        key = rng.choice(["ltime", "ltime", "ftime", "time"])
+        form = rng.choice(['%s:"@T%d@:"', '%s:":@T%d@"'])
+        qs.append((form % (key, t)) + " sort:id")
+    if len(pts) >= 2:
+        a, b = sorted(rng.sample(pts, 2))
+        qs.append('ltime:"@T%d@:@T%d@" sort:id' % (a, b))
+        qs.append('time:"@T%d@:@T%d@" sort:-id' % (a, b))
+    return qs
+
+
+def gen_nested_lifetimes(rng, name):
+    """lifetimes that nest across files: a long-lived stream that starts first and ends last in one file, streams that start
+    later and end earlier in the other files (both orders), so that after a merge the file's min/max first/last packet
+    times come from different streams."""
+    hosts = [c01.rand_host(rng, False) for _ in range(3)]
+    src = c01.Src(rng, 2)
+    tb = c01.time_base(rng) + 86400 * 10 ** 9
+    sid = iter(range(1, 100))
+
+    def span(t_first, t_last, n=3):
+        s = c01.gen_stream(rng, next(sid), hosts, src, t_first, {"maxpk": 1})
+        pk = [[t_first // 10 ** 9, t_first % 10 ** 9, 0, [src.take()]]]
+        da = [[0, 3, 1]]
+        for i in range(1, n):
+            t = t_first + (t_last - t_first) * i // (n - 1)
+            pk.append([t // 10 ** 9, t % 10 ** 9, i & 1, [src.take()]])
+            da.append([i, 2 + i, i])
+        s["pk"], s["da"] = pk, da
+        return s
+    S = 10 ** 9
+    long_ = span(tb, tb + 2000 * S)
+    inner = [span(tb + (100 + 50 * i) * S, tb + (300 + 70 * i) * S) for i in range(3)]
+    late = [span(tb + 1500 * S, tb + 1600 * S), span(tb + 1900 * S, tb + 1950 * S)]
+    order = rng.randrange(3)
+    files = [[long_] + inner[:1], inner[1:], late] if order == 0 else ([inner, [long_], late] if order == 1 else [late, inner[:2], [inner[2], long_]])
+    c = {"name": name, "regime": "nested_lifetimes", "files": files, "queries": ["sort:id", "sort:-ltime", "sort:ftime"]}
+    c["queries"] += time_queries(rng, files, limit=20)
+    return c
 
 
 def gen_big_merge(rng, name):
@@ -475,6 +547,8 @@ def main(tier, seed, replay=None):
             reg = REGIMES[i % len(REGIMES)]
             cases.append(gen_case(rng, "g%d_%s" % (i, reg), reg))
         cases.append(gen_big_merge(rng, "big_merge_v6"))
+        for j in range(6 if tier == "quick" else 120):
+            cases.append(gen_nested_lifetimes(rng, "nested%d" % j))
         turns = [4400, 8200] if tier == "quick" else c01.TURNS
         for j, nt in enumerate(turns):
             cases.append(gen_turns_merge(rng, "turns%d_%d" % (j, nt), nt, big_every=(7 if j % 2 else 0)))
